@@ -8,6 +8,8 @@ import (
 	"errors"
 	"os"
 
+	"github.com/Oneledger/protocol/action"
+	action_eth "github.com/Oneledger/protocol/action/eth"
 	"github.com/Oneledger/protocol/config"
 	"github.com/Oneledger/protocol/data/chain"
 	trackerlib "github.com/Oneledger/protocol/data/ethereum"
@@ -195,4 +197,57 @@ func SV_C01_witness_role() {
 	sv.Observe("state.witness", int(w.state))
 	sv.Cover(len(p.writes) > 0, "transition-written")
 	sv.Cover(len(p.writes) == 0, "no-transition")
+}
+
+// SV_C07_tracker_checktx: the Ethereum tracker store is one object whose
+// selected stage prefix is in-memory state; the block-end transitions must not
+// depend on what a CheckTx selected last.
+//
+// sv:bounds the tracker pre-state of SV_C15_handlers (a tracker for the lock of 5 or the redeem of 3 absent / ongoing / passed / failed, plus B's ongoing lock tracker with two yes votes); replica 1 runs the block-end transitions (doEthTransitions, plain node) directly; replica 2 first serves a CheckTx of an ETH_LOCK or ETH_REDEEM by any party carrying any of the external transactions (a resubmission of a passed one is refused after the passed store was selected)
+// sv:outside several CheckTx calls; the ERC20 kinds (same store, same pattern); witness nodes (SV_C01_witness_role)
+// sv:goal both replicas make the same writes to the block state (keys, order, values)
+func SV_C07_tracker_checktx() {
+	svCurrencyLimit = 1
+	sv.NominalSizes(64)
+	run := func(inject bool) []svKV {
+		pre := &svEthPre{}
+		e := svNewEnv(3, 20, func(e *svEnv) {
+			svPreETH(pre, 0)(e)
+			// B's ongoing tracker is due a transition at this block end (votes came in
+			// while it was broadcasting: every node moves it to BusyFinalizing)
+			ts := e.app.Context.ethTrackers.WithState(e.app.Context.deliver).WithPrefixType(trackerlib.PrefixOngoing)
+			bt, err := ts.Get(ethcmn.BytesToHash(svExtTxs[1].raw))
+			if err != nil {
+				sv.Unreachable("bystander tracker")
+			}
+			bt.State = trackerlib.BusyBroadcasting
+			if err := ts.Set(bt); err != nil {
+				sv.Unreachable("bystander tracker state")
+			}
+		})
+		ctx := &e.app.Context
+		if inject {
+			i, who := svAnyParty("chk.actor", e.n)
+			ext := svAnyExt("chk.ext")
+			var raw action.RawTx
+			if sv.Choice("chk.kind", 2) == 0 {
+				raw = svRaw(action.ETH_LOCK, &action_eth.Lock{Locker: who, ETHTxn: ext})
+			} else {
+				raw = svRaw(action.ETH_REDEEM, &action_eth.Redeem{Owner: who, To: ethcmn.BytesToAddress([]byte{0xbe, 0xef}), ETHTxn: ext})
+			}
+			r := svCheckEnvGas(e.app, svSign(raw, i))
+			sv.Cover(r.Code != 0, "checktx-refused")
+			sv.Cover(r.Code == 0, "checktx-accepted")
+		}
+		me := svAddr(77)
+		ws := ctx.witnesses.WithState(ctx.deliver)
+		ws.Init(chain.ETHEREUM, me)
+		w0 := len(svBlockWrites(e.app))
+		doEthTransitions(svNewJobStore(), ctx.ethTrackers, me, log.NewLoggerWithPrefix(os.Stdout, "ethtracker"), ws, ctx.deliver)
+		return svBlockWrites(e.app)[w0:]
+	}
+	with := run(true)
+	without := run(false)
+	sv.Assert(svSameWrites(with, without), "tracker-transitions-independent-of-an-earlier-checktx")
+	sv.Cover(len(without) > 0, "transition-written")
 }
